@@ -343,20 +343,36 @@ pub fn gen_user_entity(src: &mut Src, info: &mut RInfo, p: [bool; 3]) -> Value {
     if info.opt(p[0]) {
         m.push(ks("icon", text_cap(src, 128)));
     }
+    let mut last_name: Option<Value> = None;
     if info.opt(p[1]) {
-        m.push(ks("name", text_cap(src, 64)));
+        let n = text_cap(src, 64);
+        last_name = Some(n.clone());
+        m.push(ks("name", n));
     }
     if info.opt(p[2]) {
-        m.push(ks("displayName", text_cap(src, 64)));
+        let d = match (&last_name, src.chance(1, 8)) {
+            (Some(n), true) => {
+                info.l("relation:displayName==name");
+                n.clone()
+            }
+            _ => text_cap(src, 64),
+        };
+        m.push(ks("displayName", d));
     }
     info.nested_maps += 1;
     Value::Map(m)
 }
 
 pub fn gen_rp_entity(src: &mut Src, info: &mut RInfo, p_name: bool, icon_set: bool) -> Value {
-    let mut m = vec![ks("id", text_cap(src, 256))];
+    let id = if src.chance(1, 3) { text_cap(src, 64) } else { text_cap(src, 256) };
+    let mut m = vec![ks("id", id.clone())];
     if info.opt(p_name) {
-        m.push(ks("name", text_cap(src, 64)));
+        // sometimes the name merely repeats the id: equal contents
+        let same = src.chance(1, 6) && id.as_text().map(|t| t.len() <= 64).unwrap_or(false);
+        if same {
+            info.l("relation:rp.name==rp.id");
+        }
+        m.push(ks("name", if same { id } else { text_cap(src, 64) }));
     }
     if icon_set {
         // the icon placeholder is set: it must NOT be emitted
